@@ -307,6 +307,32 @@ Theorem C11_tiered_flex_member_query_stored :
   t_flex w = true /\ exists k, active_index now 0 (t_stages w) = Some k /\ In (k, a, c) (t_mem w).
 Proof. exact tq_member_stored. Qed.
 
+(* ================= membership means "a row is stored", not "count > 0" ================= *)
+(* plain / flex: whatever mint count c (0 included) is stored with a well-formed address,
+   HasMember answers true and the flex Member query answers exactly c *)
+Theorem C11_stored_row_is_member_whatever_count :
+  forall (valid : addr -> bool) a c w,
+  valid a = true -> In (a, c) (w_mem w) -> q_has valid a w = Ok true.
+Proof. exact row_is_member. Qed.
+
+Theorem C11_flex_member_query_answers_stored_count :
+  forall (valid : addr -> bool) a c w,
+  w_kind w = KFlex -> valid a = true -> NoDup (keys (w_mem w)) -> In (a, c) (w_mem w) ->
+  q_member valid a w = Ok c.
+Proof. exact row_member_query. Qed.
+
+(* tiered kinds: a row ((k, a), c) stored for an existing stage -- c may be 0 -- is a member
+   for StageMemberInfo and for AllStageMemberInfo (which reports exactly c on the flex
+   kind), and for HasMember / Member while stage k is the running one *)
+Theorem C11_tiered_stored_row_is_member_whatever_count :
+  forall (valid : addr -> bool) k a c w,
+  valid a = true -> NoDup (tkeys (t_mem w)) -> In (k, a, c) (t_mem w) -> k < nlen (t_stages w) ->
+  tq_stage_member valid k a w = Ok true /\
+  (exists l, tq_all_member valid a w = Ok l /\ exists p, In (k, true, p) l /\ (t_flex w = true -> p = c)) /\
+  (forall now, active_index now 0 (t_stages w) = Some k ->
+     tq_has valid now a w = Ok true /\ (t_flex w = true -> tq_member valid now a w = Ok c)).
+Proof. exact t_row_is_member. Qed.
+
 (* ================= admin list (all list kinds) ================= *)
 (* CanExecute { sender } answers true exactly for an address in the stored admin list; the
    list changes only through update_admins (to exactly the given list) and freeze, both
@@ -441,6 +467,30 @@ Example C11_ex_tiered_remove_stage :
   end.
 Proof. vm_compute. reflexivity. Qed.
 
+
+(* zero-count members are members: flex instantiate [(a,5); (a,0); (b,0)] stores a and b
+   with count 0 (the later entry of a repeated address wins) and every query says "member" *)
+Example C11_ex_flex_zero_count_members :
+  match inst ex_valid KFlex 5 (ex_env 100000000)
+          (mkImsg [(100, 5); (100, 0); (101, 0)] (G + 100) (G + 200) 0 10 None [60] true true) with
+  | Ok (w, _) =>
+      (w_num w, q_has ex_valid 100 w, q_has ex_valid 101 w, q_member ex_valid 100 w, q_member ex_valid 102 w)
+      = (2, Ok true, Ok true, Ok 0, Err)
+  | Err => False
+  end.
+Proof. vm_compute. reflexivity. Qed.
+
+Example C11_ex_tiered_flex_zero_count_members :
+  match t_inst ex_valid true 5 (ex_env 100000000)
+          (mkTimsg [[(100, 0); (101, 1)]; [(100, 0)]] [ex_stage 0; ex_stage 1] 10 None [60] true) with
+  | Ok (w, _) =>
+      (t_num w, tq_all_member ex_valid 100 w, tq_stage_member ex_valid 1 100 w,
+       tq_has ex_valid (G + 150) 100 w, tq_member ex_valid (G + 150) 100 w, tq_has ex_valid (G + 250) 101 w)
+      = (3, Ok [(0, true, 0); (1, true, 0)], Ok true, Ok true, Ok 0, Ok false)
+  | Err => False
+  end.
+Proof. vm_compute. reflexivity. Qed.
+
 Example C11_ex_immutable :
   imm_inst [] [101; 100; 101] = Ok ([100; 101], 2) /\ imm_inst [] [] = Err.
 Proof. vm_compute. split; reflexivity. Qed.
@@ -474,6 +524,9 @@ Print Assumptions C11_tiered_history_accounting.
 Print Assumptions C11_flex_member_query_stored.
 Print Assumptions C11_flex_member_query_error_means_absent.
 Print Assumptions C11_tiered_flex_member_query_stored.
+Print Assumptions C11_stored_row_is_member_whatever_count.
+Print Assumptions C11_flex_member_query_answers_stored_count.
+Print Assumptions C11_tiered_stored_row_is_member_whatever_count.
 Print Assumptions C11_can_execute_iff_admin.
 Print Assumptions C11_admin_list_changes.
 Print Assumptions C11_tiered_can_execute_iff_admin.
